@@ -362,6 +362,42 @@ SHAPE_DOCS = [
 ]
 
 
+def expr_depth_limit():
+    try:
+        import re as _re
+        m_ = _re.search(r"const MAX_EXPR_DEPTH: usize = (\d+);", open(os.path.join(lib.REPO, "xpath/src/expr/mod.rs")).read())
+        return int(m_.group(1)) if m_ else None
+    except OSError:
+        return None
+
+
+def recovery_after_refusals(chk, lim, fams):
+    """expressions within the nesting limit get the same answer after many expressions beyond the limit were refused in the
+    same process (same thread) as they get when asked first.  -> [(document, label, expression, message)]"""
+    out = []
+    if not lim:
+        return out
+    h0 = lib.build_harness()
+    rdoc = "<r><a><a><a/></a></a></r>"
+    recovery = ["(" * (lim - 1) + "1" + ")" * (lim - 1), "((1))", "-(1)", "1 + (2)", "not(not(true()))", "/r[a[a[a]]]",
+                "count(//a[../a])", "(((//a)))[1]", "(r/a)", "((/r)/a)"]
+    for name in ("parens", "preds", "calls"):
+        if name not in fams:
+            continue
+        deep = [fams[name](lim + 1 + (i % 3)) for i in range(lim + 3)]
+        first = lib.run_lines(h0, [lib.req("query", rdoc, "", *recovery)], timeout=60)[0]
+        after = lib.run_lines(h0, [lib.req("query", rdoc, "", *(deep + recovery))], timeout=120)[0]
+        f1, _, _ = _fields(first, len(recovery))
+        f2, _, _ = _fields(after, len(deep) + len(recovery))
+        chk.count(["recovery", name], nontrivial=True)
+        for e, x, y in zip(recovery, f1, f2[len(deep):]):
+            if x != y:
+                out.append((rdoc, "recovery:%s" % name, e, "answers %s after %d expressions of family %s nested beyond the limit were "
+                            "refused in the same process; asked first it answers %s" % (y, len(deep), name, x)))
+                break
+    return out
+
+
 def run_c06(chk):
     thorough = chk.tier == "thorough"
     rng = random.Random(lib.seed())
@@ -472,26 +508,9 @@ def run_c06(chk):
             if out in BAD:
                 bad.append(("<r><a><a><a/></a></a></r>", "hostile:%s:%d" % (name, k), e if len(e) < 400 else "family %s(%d) of xp_families()" % (name, k), out))
     chk.cov["hostile_sizes"] = hostile
-    # ---- a refusal leaves nothing behind: expressions within the nesting limit get the same answer after many expressions
-    # beyond the limit were refused in the same process (same thread) as they get when asked first
-    if lim:
-        rdoc = "<r><a><a><a/></a></a></r>"
-        recovery = ["(" * (lim - 1) + "1" + ")" * (lim - 1), "((1))", "-(1)", "1 + (2)", "not(not(true()))", "/r[a[a[a]]]",
-                    "count(//a[../a])", "(((//a)))[1]"]
-        for name in ("parens", "preds", "calls"):
-            if name not in fams:
-                continue
-            deep = [fams[name](lim + 1 + (i % 3)) for i in range(lim + 3)]
-            first = lib.run_lines(h0, [lib.req("query", rdoc, "", *recovery)], timeout=60)[0]
-            after = lib.run_lines(h0, [lib.req("query", rdoc, "", *(deep + recovery))], timeout=120)[0]
-            f1, _, _ = _fields(first, len(recovery))
-            f2, _, _ = _fields(after, len(deep) + len(recovery))
-            chk.count(["recovery", name], nontrivial=True)
-            for e, x, y in zip(recovery, f1, f2[len(deep):]):
-                if x != y:
-                    bad.append((rdoc, "recovery:%s" % name, e, "answers %s after %d expressions of family %s nested beyond the limit were "
-                                "refused in the same process; asked first it answers %s" % (y, len(deep), name, x)))
-                    break
+    # ---- a refusal leaves nothing behind (shared with C08: redundant parentheses stay harmless after refusals)
+    for rdoc_, label_, e_, msg_ in recovery_after_refusals(chk, lim, fams):
+        bad.append((rdoc_, label_, e_, msg_))
     # ---- predicates nested to the limit on a document where every one of them is actually evaluated (a chain of elements):
     # the work must not double with every level
     if lim:
@@ -784,6 +803,10 @@ def run_c08(chk):
             chk.count([t, f], nontrivial=True)
             if x != y:
                 mfail.append((t, f, "precedence / associativity / node-type test: differs from the grammar's reading", x + " expected " + y))
+    # ---- redundant parentheses stay harmless whatever was asked before: after expressions nested beyond the limit were
+    #      refused, the parenthesised spellings within the limit answer as they do when asked first
+    for rdoc_, label_, e_, msg_ in recovery_after_refusals(chk, expr_depth_limit(), xp_families()):
+        mfail.append((rdoc_, e_, "a spelling within the nesting limit is read differently after deeper expressions were refused", msg_))
     # ---- the reviewed expression grammar as reference (tools/ref/xpath.json): derivations of it and their one-character
     #      neighbours must be read by the parser exactly as the reviewed grammar reads them (same error class / same value)
     from gen import peggen
